@@ -106,6 +106,12 @@ func pivotOperator(_ *dataTreeNavigator, context Context, _ *ExpressionNode) (Co
 		if err != nil {
 			return Context{}, err
 		}
+		// a tag can be written on a node of another kind (`!!map [1]`): the content decides what can be pivoted
+		for _, child := range candidate.Content {
+			if (tag == "!!map" && child.Kind != MappingNode) || (tag == "!!seq" && child.Kind != SequenceNode) {
+				return Context{}, fmt.Errorf("can only pivot elements that are maps or sequences, an element tagged %v is neither", tag)
+			}
+		}
 		var pivot *CandidateNode
 		switch tag {
 		case "!!seq":
